@@ -30,10 +30,10 @@ CLAIMS = {
             "primitive configuration Contract!SecondOrder incl. LinearAtZero", "4 C07"),
     "C08": ("model_checking", "AGM over all nestings of depth 2/3 x mode assignments x closure patterns, ResultIsDen + level discipline; programs "
             "replayed on the real code, observations judged by TLC against the program's meaning; one nesting level through the built-in rules at a "
-            "traced zero cotangent (Contract!LinearAtZero)", "4 C08"),
+            "traced zero cotangent (Contract!LinearAtZero); the fixed_point primitive nested to depth 3 (TraceMisc!NestedExact)", "4 C08"),
     "C10": ("model_checking", "ownership protocol of add_outgrads model-checked (NoBadWrite, UserMemoryIntact, sessions of calls incl. abandoned ones); "
             "graphs x sessions replayed with frozen and snapshotted memory; traces validated against RevAbs; one VJP function of every built-in "
-            "primitive configuration applied to the whole basis and again (Contract!Reusable)", "4 C10"),
+            "primitive configuration applied to the whole basis and again, writeable cotangents and cotangents shared by two applications (Contract!Reusable); autograd.misc optimizers (TraceMisc!Ownership)", "4 C10"),
     "C11": ("model_checking", "sparse/dense accumulation: every arrival order of sparse and dense contributions at a shared value (star graphs), "
             "SparseObject primitives and built-in x[idx]; traces validated against RevAbs; every index expression (incl. 0-d arrays) scatters "
             "exactly and never raises (Contract!C11), also combined with dense uses in every order and memory layout (mixorder); mix programs of the machine", "4 C11"),
@@ -60,7 +60,7 @@ CLAIMS = {
             "per cell and judged by TLC against a binomial threshold: statistical evidence, not a decision", "4 C18"),
     "C19": ("model_checking", "AGM with faults at every instruction of the innermost function, in the backward pass and at trace exit, caught at every "
             "enclosing level, followed by canaries; replayed in one process per worker and judged by TLC; re-wrapping and other-tracer histories; the rule "
-            "tables evaluated in two processes in opposite orders must agree bit for bit, also with every warning promoted to an error (TraceHistory.tla)", "4 C19"),
+            "tables evaluated in two processes in opposite orders must agree bit for bit, also with every warning promoted to an error and a fault injected at the k-th operation inside every backward rule (TraceHistory.tla)", "4 C19"),
     "C20": ("model_checking", "AGM with 2-3 threads: all interleavings model-checked; TLC-exported schedules replayed with real threads under a strict "
             "baton scheduler, once switching at machine-step boundaries and once with threads frozen inside autograd's own code, with shared operator "
             "objects and with threads born / joined under open traces; per-thread results judged against the run-alone meaning", "4 C20"),
